@@ -1325,9 +1325,33 @@ def tup(x):
     return x
 
 
+_WARMED = set()
+
+
+def warm_up(ini):
+    """every execution first reads every element path of the alphabet on ANOTHER tree of the same document: what a
+    query returns on the tree under test must not depend on what was asked of other trees before (shared parse
+    caches, class-level state); with the prelude such a dependence shows deterministically and replays reproduce it"""
+    if ini['cfg']['name'] in _WARMED:
+        return          # process-level state, once per process and configuration is enough (and keeps replays identical)
+    _WARMED.add(ini['cfg']['name'])
+    try:
+        scratch = IM(ini['cfg'])
+        for H, key in (('R', 'base'), ('Rc', 'child')):
+            node = scratch.handle(H)
+            for P in ini['ep'][key]:
+                try:
+                    node.get_value(fmt_path(P))
+                except Exception:
+                    pass
+    except Exception:
+        pass
+
+
 def replay(hist):
     name = hist[0][1]
     ini = setup(name)
+    warm_up(ini)
     ms = MS(ini['cfg'])
     im = IM(ini['cfg'])
     for ev in hist[1:]:
